@@ -227,7 +227,13 @@ fn pairs<S: Tab>(run: &Run, n: usize) {
     let fam: Vec<TT> = if complete {
         (0..(1u64 << nbits(n))).map(|x| TT::from_u64(n, x)).collect()
     } else {
-        alpha::family_capped(n, run.seed, if run.thorough() { 2 } else { 1 }, if run.thorough() { 40000 } else if n <= 10 { 6100 } else if n == 11 { 2800 } else { 5100 })
+        let mut f = alpha::family_capped(n, run.seed, if run.thorough() { 2 } else { 1 }, if run.thorough() { 40000 } else if n <= 10 { 6100 } else if n == 11 { 2800 } else { 5100 });
+        if (7..=9).contains(&n) {
+            // every 3-variable function embedded at ordered variable triples (appended: the
+            // canonization prefix of the family stays what it was)
+            f.extend(alpha::embedded3(n, false));
+        }
+        f
     };
     let total = fam.len() as u64;
     let ncanon = if n <= 5 { u64::MAX } else if n == 6 { 400 } else if n == 7 { 24 } else { 0 };
